@@ -37,11 +37,12 @@ Lemma isz_arr_new a : isize (mk OP_ARR_NEW a) = 2. Proof. reflexivity. Qed.
 Lemma isz_arr_push a : isize (mk OP_ARR_PUSH a) = 1. Proof. reflexivity. Qed.
 Lemma isz_arr_len a : isize (mk OP_ARR_LEN a) = 1. Proof. reflexivity. Qed.
 Lemma isz_arr_get a : isize (mk OP_ARR_GET a) = 1. Proof. reflexivity. Qed.
+Lemma isz_arr_literal a : isize (mk OP_ARR_LITERAL a) = 4. Proof. reflexivity. Qed.
 
 #[export] Hint Rewrite csize_app csize_cons csize_nil
   isz_push_i64 isz_push_bool isz_push_str isz_push_void isz_dup isz_pop isz_load_local isz_store_local
   isz_load_global isz_store_global isz_neg isz_not isz_jmp isz_jmp_false isz_jmp_true isz_call isz_ret isz_assert
-  isz_binop isz_unop isz_sc isz_print isz_lt isz_add isz_arr_new isz_arr_push isz_arr_len isz_arr_get : csz.
+  isz_binop isz_unop isz_sc isz_print isz_lt isz_add isz_arr_new isz_arr_push isz_arr_len isz_arr_get isz_arr_literal : csz.
 Ltac csz := autorewrite with csz.
 Ltac csz_in H := autorewrite with csz in H.
 
@@ -128,15 +129,61 @@ Lemma wf_jmp z : wf_instr table (mk OP_JMP [i32 z]). Proof. apply wf_i32; reflex
 Lemma wf_jmp_false z : wf_instr table (mk OP_JMP_FALSE [i32 z]). Proof. apply wf_i32; reflexivity. Qed.
 Lemma wf_jmp_true z : wf_instr table (mk OP_JMP_TRUE [i32 z]). Proof. apply wf_i32; reflexivity. Qed.
 
+(* the element count of ARR_LITERAL is a u16 operand: a literal must have fewer than 2^16 elements *)
+Fixpoint lit_small (e : expr) : Prop :=
+  match e with
+  | ENum _ | EBool _ | EStr _ | EVar _ => True
+  | EUn _ a => lit_small a
+  | EBin _ a b => lit_small a /\ lit_small b
+  | ECall _ args => (fix go (l : list expr) : Prop := match l with [] => True | a :: r => lit_small a /\ go r end) args
+  | ECond c a b => lit_small c /\ lit_small a /\ lit_small b
+  | EArr es => (N.of_nat (length es) < 65536)%N /\
+               (fix go (l : list expr) : Prop := match l with [] => True | a :: r => lit_small a /\ go r end) es
+  | EAt a i => lit_small a /\ lit_small i
+  | ELen a => lit_small a
+  end.
+Definition lits_small_l : list expr -> Prop :=
+  fix go (l : list expr) : Prop := match l with [] => True | a :: r => lit_small a /\ go r end.
+Fixpoint lits_small (s : stmt) : Prop :=
+  match s with
+  | SSkip | SBreak | SContinue | SReturn None => True
+  | SSeq a b => lits_small a /\ lits_small b
+  | SLet _ _ _ e | SSet _ e | SReturn (Some e) | SPrint _ e | SAssert e | SExpr e => lit_small e
+  | SIf c a b => lit_small c /\ lits_small a /\ lits_small b
+  | SWhile c b => lit_small c /\ lits_small b
+  | SFor _ lo hi b => lit_small lo /\ lit_small hi /\ lits_small b
+  end.
+
+Lemma wf_arr_literal n : (N.of_nat n < 65536)%N -> wf_instr table (mk OP_ARR_LITERAL [TAG_INT_N; N.of_nat n]).
+Proof.
+  intros Hn. split; [reflexivity|]. exists [KU8; KU16]. split; [reflexivity|].
+  split; [reflexivity|]. split; [|exact I]. change (256 ^ N.of_nat (ksize KU16))%N with 65536%N. lia.
+Qed.
+
 Lemma Forall_cons_iff' {A} (P : A -> Prop) a l : P a -> Forall P l -> Forall P (a :: l).
 Proof. intros; constructor; assumption. Qed.
 Ltac fa := repeat (first [apply Forall_nil | apply Forall_cons_iff' | (apply Forall_app; split)]).
 
-Lemma compile_expr_wf G ce e : forall p c p',
-  compile_expr G ce e p = Some (c, p') -> lims G (length ce) (length p') -> Forall (wf_instr table) c.
+Lemma compile_args_wf G ce args :
+  Forall (fun a => forall p c p', compile_expr G ce a p = Some (c, p') -> lims G (length ce) (length p') -> lit_small a ->
+                   Forall (wf_instr table) c) args ->
+  forall p c p', compile_args G ce args p = Some (c, p') -> lims G (length ce) (length p') -> lits_small_l args ->
+  Forall (wf_instr table) c.
 Proof.
-  induction e as [z|b|s|x|o a IHa|o a b IHa IHb|f args IHargs|c0 a b IHc IHa IHb] using expr_ind2;
-    intros p c p' H HL.
+  induction 1 as [|a r Ha Hr IH]; intros p c p' Ea HL Hs; cbn [compile_args] in Ea.
+  - inversion Ea. constructor.
+  - destruct (compile_expr G ce a p) as [[ca q1]|] eqn:E1; [|discriminate].
+    destruct (compile_args G ce r q1) as [[cr q2]|] eqn:E2; [|discriminate]. inversion Ea; subst.
+    destruct Hs as [Hsa Hsr].
+    apply Forall_app. split; [|eapply IH; eauto].
+    eapply Ha; eauto. eapply lims_mono; [exact HL|lia|]. apply pool_le_length. eapply compile_args_pool; eauto.
+Qed.
+
+Lemma compile_expr_wf G ce e : forall p c p',
+  compile_expr G ce e p = Some (c, p') -> lims G (length ce) (length p') -> lit_small e -> Forall (wf_instr table) c.
+Proof.
+  induction e as [z|b|s|x|o a IHa|o a b IHa IHb|f args IHargs|c0 a b IHc IHa IHb|es IHes|a i IHa IHi|a IHa] using expr_ind2;
+    intros p c p' H HL HS; cbn [lit_small] in HS.
   - inversion H. fa. apply wf_i64.
   - inversion H. fa. apply (wf_mk1 _ KU8); try reflexivity. destruct b; reflexivity.
   - cbn [compile_expr] in H. destruct (pool_add (unescape s) p) as [i q] eqn:E. inversion H; subst.
@@ -149,31 +196,39 @@ Proof.
       destruct HL as (_ & _ & Hg & _). unfold VM_MAX_GLOBALS_N in Hg. lia.
   - cbn [compile_expr] in H. dex H. inversion H; subst. apply Forall_app. split; [eapply IHa; eauto|].
     fa. destruct o; wf0.
-  - cbn [compile_expr] in H. dex H. dex H.
+  - cbn [compile_expr] in H. dex H. dex H. destruct HS as [HSa HSb].
     pose proof (compile_expr_pool _ _ _ _ _ _ E0) as P1.
     assert (HL1 : lims G (length ce) (length p0)) by (eapply lims_mono; [exact HL|lia|]; destruct o; inversion H; subst; apply pool_le_length; auto).
     assert (HL2 : lims G (length ce) (length p1)) by (destruct o; inversion H; subst; exact HL).
-    specialize (IHa _ _ _ E HL1). specialize (IHb _ _ _ E0 HL2).
+    specialize (IHa _ _ _ E HL1 HSa). specialize (IHb _ _ _ E0 HL2 HSb).
     destruct o; apply some2_inj in H; destruct H as [<- <-]; fa; try assumption; try wf0;
       try apply wf_jmp_false; try apply wf_jmp_true.
   - rewrite compile_call_eq in H.
     destruct (compile_args G ce args p) as [[cargs p1]|] eqn:Ea; [|discriminate].
     destruct (index_of f (g_fns G) 0) as [k|] eqn:Ei; inversion H; subst. clear H.
     apply Forall_app. split.
-    + revert p cargs Ea. induction IHargs as [|a r Ha Hr IH]; intros p cargs Ea; cbn [compile_args] in Ea.
-      * inversion Ea. constructor.
-      * destruct (compile_expr G ce a p) as [[ca q1]|] eqn:E1; [|discriminate].
-        destruct (compile_args G ce r q1) as [[cr q2]|] eqn:E2; [|discriminate]. inversion Ea; subst.
-        apply Forall_app. split; [|eapply IH; eauto].
-        eapply Ha; eauto. eapply lims_mono; [exact HL|lia|]. apply pool_le_length. eapply compile_args_pool; eauto.
+    + eapply compile_args_wf; eauto.
     + fa. apply (wf_u32 _ _ (length (g_fns G))); try reflexivity; [apply index_of_lt in Ei; lia|apply HL].
-  - cbn [compile_expr] in H. dex H. dex H. dex H. inversion H; subst.
+  - cbn [compile_expr] in H. dex H. dex H. dex H. inversion H; subst. destruct HS as (HSc & HSa & HSb).
     pose proof (compile_expr_pool _ _ _ _ _ _ E0) as P1. pose proof (compile_expr_pool _ _ _ _ _ _ E1) as P2.
     apply pool_le_length in P1, P2.
     repeat (apply Forall_app; split); fa; try apply wf_jmp_false; try apply wf_jmp.
     + eapply IHc; eauto. eapply lims_mono; [exact HL|lia|lia].
     + eapply IHa; eauto. eapply lims_mono; [exact HL|lia|lia].
     + eapply IHb; eauto.
+  - rewrite compile_arr_eq in H.
+    destruct (compile_args G ce es p) as [[cel p1]|] eqn:Ea; [|discriminate].
+    inversion H; subst. clear H. destruct HS as [Hlen Hel].
+    apply Forall_app. split.
+    + eapply compile_args_wf; eauto.
+    + fa. apply wf_arr_literal. exact Hlen.
+  - cbn [compile_expr] in H. dex H. dex H. inversion H; subst. destruct HS as [HSa HSi].
+    pose proof (compile_expr_pool _ _ _ _ _ _ E0) as P1. apply pool_le_length in P1.
+    repeat (apply Forall_app; split); fa; try wf0.
+    + eapply IHa; eauto. eapply lims_mono; [exact HL|lia|lia].
+    + eapply IHi; eauto.
+  - cbn [compile_expr] in H. dex H. inversion H; subst. apply Forall_app. split; [eapply IHa; eauto|].
+    fa. wf0.
 Qed.
 
 Lemma for_code_wf n0 n : n0 + 7 <= n -> (N.of_nat n <= 65536)%N ->
@@ -190,11 +245,13 @@ Proof.
 Qed.
 
 Lemma compile_stmt_wf G s : forall pos L ce p c ce' p',
-  compile_stmt G pos L ce s p = Some (c, ce', p') -> lims G (length ce') (length p') -> Forall (wf_instr table) c.
+  compile_stmt G pos L ce s p = Some (c, ce', p') -> lims G (length ce') (length p') -> lits_small s ->
+  Forall (wf_instr table) c.
 Proof.
   induction s as [ |s1 IH1 s2 IH2|m x t e|x e|c0 s1 IH1 s2 IH2|c0 body IHb|x lo hi body IHb| | |[e|]|nl e|e|e];
-    intros pos L ce p c ce' p' H HL; pose proof (compile_stmt_ext _ _ _ _ _ _ _ _ _ H) as [[ext Hext] Hpool];
-    try (rewrite compile_for_eq in H); cbn [compile_stmt] in H.
+    intros pos L ce p c ce' p' H HL HS; pose proof (compile_stmt_ext _ _ _ _ _ _ _ _ _ H) as [[ext Hext] Hpool];
+    try (rewrite compile_for_eq in H); cbn [compile_stmt] in H; cbn [lits_small] in HS;
+    repeat match goal with HH : _ /\ _ |- _ => destruct HH end.
   - inversion H. constructor.
   - dst H. dst H. apply some3_inj in H. destruct H as (<- & <- & <-).
     destruct (compile_stmt_ext _ _ _ _ _ _ _ _ _ E) as [[x1 ->] P1].
